@@ -752,3 +752,71 @@ def run(ctx) -> None:  # noqa: F811
                               "bound of its blocks", key_detail=_nt(c.func.value))
     ctx.require(n >= 1, "_auto_chunks: no budget entries for tuple chunks found")
     _inner_run_c18(ctx)
+
+
+# ---- added after the seeded change C18-r3seed7: the -1 sentinel never enters the element budget
+_inner_run_c18b = run
+
+
+def run(ctx) -> None:  # noqa: F811
+    import ast as _ast
+
+    from ..cfg import DataFlow as _DF
+    from ..model import call_name as _cn, norm_text as _nt, walk_no_nested as _walk
+
+    ctx.rule("R-SENTINEL", "the chunk specification may contain the sentinel -1 ('one block along this dimension'); in "
+             "_auto_chunks the per-dimension budget entries (current_chunks / max_chunks, whose product is compared with "
+             "max_elements) are taken from a sequence in which -1 has been replaced by the dimension's size — the "
+             "sequence the budget loop iterates derives from `chunks` through an expression that tests for the "
+             "sentinel (c == -1, c < 0), or the integer arm tests for it itself.  A raw -1 makes the product negative "
+             "or too small, so the 'auto' dimensions grow past the limit")
+    f = ctx.repo.function("abtem.core.chunks", "_auto_chunks")
+    df = _DF(f.node)
+    loops = [l for l in _walk(f.node) if isinstance(l, _ast.For) and any(
+        isinstance(c, _ast.Call) and _cn(c) == "isinstance" for i in l.body for c in _ast.walk(i) if isinstance(i, _ast.If))
+        and any(isinstance(c, _ast.Call) and isinstance(c.func, _ast.Attribute) and c.func.attr == "append"
+                for st in l.body for c in _ast.walk(st))]
+    ctx.require(len(loops) == 1, f"{f.qualname}: budget loop (isinstance dispatch with append) not found")
+    loop = loops[0]
+
+    def tests_sentinel(e: _ast.AST) -> bool:
+        for c in _ast.walk(e):
+            if isinstance(c, _ast.Compare) and len(c.ops) == 1:
+                sides = [c.left, c.comparators[0]]
+                for s_ in sides:
+                    if isinstance(s_, _ast.UnaryOp) and isinstance(s_.op, _ast.USub) and isinstance(s_.operand, _ast.Constant) \
+                            and s_.operand.value == 1:
+                        return True
+                    if isinstance(s_, _ast.Constant) and s_.value in (-1,):
+                        return True
+                    if isinstance(s_, _ast.Constant) and s_.value == 0 and isinstance(c.ops[0], (_ast.Lt, _ast.GtE, _ast.Gt, _ast.LtE)):
+                        return True
+        return False
+
+    # the sequence(s) the loop iterates, followed through single definitions
+    handled = any(tests_sentinel(st) for st in loop.body)
+    it = loop.iter
+    seqs = it.args if isinstance(it, _ast.Call) and _cn(it) in ("zip", "enumerate") else [it]
+    at = df.cfg.node_of(loop).idx
+    for s_ in seqs:
+        e, node = s_, at
+        for _ in range(6):
+            if tests_sentinel(e):
+                handled = True
+                break
+            if isinstance(e, _ast.Name):
+                d = df.single_def(node, e.id)
+                if d is None or d.value is None:
+                    break
+                e, node = d.value, d.node
+                continue
+            if isinstance(e, _ast.Call) and _cn(e) in ("tuple", "list") and len(e.args) == 1:
+                e = e.args[0]
+                continue
+            break
+    ctx.check(handled, "R-SENTINEL", f"{f.qualname}:-1 replaced before budgeting", f.loc(loop),
+              "the budget loop iterates chunks with -1 replaced by the dimension size",
+              f"the budget loop `for {_nt(loop.target)} in {_nt(loop.iter)[:50]}` reads the raw chunk specification: a -1 "
+              "sentinel is appended to the element budget as -1, the product with the other dimensions is negative or "
+              "too small and the 'auto' dimensions grow beyond max_elements", key_detail="sentinel")
+    _inner_run_c18b(ctx)
